@@ -67,7 +67,7 @@ def _ops(draw, n, ncontent, lo, hi):
         st.just(['purge']),
         st.just(['reopen']),
         st.tuples(st.just('updf'), t, run, a, cidx, st.integers(0, 14),
-                  st.sampled_from(['request', 'reply'])).map(list),
+                  st.sampled_from(['request', 'reply', 'move'])).map(list),
     )
     return draw(st.lists(op, min_size=lo, max_size=hi))
 
@@ -111,7 +111,8 @@ def do_update(s, op, case, out, where, fault=None):
                                               fault[0], fault[1])
         if fired:
             out.nontrivial = True
-            out.label(f'connection-fault-{fault[1]}-lost')
+            out.label('move-into-the-store-failed-once' if fault[1] == 'move'
+                      else f'connection-fault-{fault[1]}-lost')
         if res is None:
             out.label('update-failed-loudly-and-was-run-again')
             return do_update(s, op, case, out, where + ' (run again)')
